@@ -5,11 +5,12 @@
 set -u
 seed=$1; prop=$2; shift 2
 wt=/tmp/seedrepo-$seed-$prop
+logdir=${VERIF_SEED_LOGDIR:-/var/tmp}; mkdir -p $logdir
 git -C /repo worktree remove --force $wt 2>/dev/null
 git -C /repo worktree add -q --detach $wt HEAD || exit 9
 # carry over uncommitted changes of /repo (e.g. a fix under test)
 git -C /repo diff | git -C $wt apply 2>/dev/null
 git -C $wt apply /verif/seeded/$seed/patch.diff || { echo "seed=$seed apply failed"; git -C /repo worktree remove --force $wt; exit 9; }
-cd /verif && VERIF_REPO=$wt VERIF_EVIDENCE_DIR=/var/tmp/seed-evidence VERIF_REPLAY_DIR=/var/tmp/seed-replays VERIF_SCRATCH=/var/tmp/dnp3-verif-seed bin/check $prop "$@" > /var/tmp/seed-$seed-$prop.log 2>&1; rc=$?
+cd /verif && VERIF_REPO=$wt VERIF_EVIDENCE_DIR=/var/tmp/seed-evidence VERIF_REPLAY_DIR=/var/tmp/seed-replays VERIF_SCRATCH=/var/tmp/dnp3-verif-seed bin/check $prop "$@" > $logdir/seed-$seed-$prop.log 2>&1; rc=$?
 git -C /repo worktree remove --force $wt
-echo "seed=$seed prop=$prop rc=$rc"; grep -E "VIOLATION|KNOWN|held|INCONCLUSIVE|broken" /var/tmp/seed-$seed-$prop.log | cut -c1-200 | head -4
+echo "seed=$seed prop=$prop rc=$rc"; grep -E "VIOLATION|KNOWN|held|INCONCLUSIVE|broken" $logdir/seed-$seed-$prop.log | cut -c1-200 | head -4
